@@ -42,6 +42,7 @@ func (g *Gen) register() {
 	g.add("attest", g.genAttest)
 	g.add("define_resolver", g.genDefineResolver)
 	g.add("register_resolver", g.genRegisterResolver)
+	g.add("resolver_combo", g.genResolverCombo)
 }
 
 // ---------- basket ----------
@@ -61,6 +62,10 @@ func (g *Gen) dateCriteria() *baskettypes.DateCriteria {
 		}
 		if d.Year() < 1900 && !g.hostile() {
 			d = time.Date(1900, 1, 1, 0, 0, 0, 0, time.UTC)
+		}
+		if g.chance(0.12) {
+			// the Unix epoch: a set criterion whose protobuf timestamp is all zero
+			d = time.Unix(0, int64(g.R.Intn(2)*g.R.Intn(2))).UTC()
 		}
 		ts, err := gogotypes.TimestampProto(d)
 		if err != nil {
@@ -305,6 +310,22 @@ func (g *Gen) genPut() *eng.Tx {
 	if b == nil {
 		return nil
 	}
+	if h.T != nil && h.T.Cmp(new(big.Rat).SetInt(ref.Pow10(28))) > 0 && g.chance(0.5) {
+		// wide-sum put: a very large entry and a smallest-unit entry of the same batch in one message
+		// (the sum of the entries needs more than 34 significant digits)
+		f := new(big.Rat).Mul(h.T, big.NewRat(int64(50+g.R.Intn(45)), 100))
+		if f.Cmp(new(big.Rat).SetInt(ref.Pow10(28))) < 0 {
+			f = new(big.Rat).SetInt(ref.Pow10(28))
+		}
+		large := &baskettypes.BasketCredit{BatchDenom: b.Denom, Amount: trimDec(ratToDec(f, 0))}
+		small := &baskettypes.BasketCredit{BatchDenom: b.Denom, Amount: []string{"0.000001", "0.000007", "1.000003", "0.5"}[g.R.Intn(4)]}
+		if g.chance(0.5) {
+			m.Credits = append(m.Credits, large, small)
+		} else {
+			m.Credits = append(m.Credits, small, large)
+		}
+		return tx(m)
+	}
 	m.Credits = append(m.Credits, &baskettypes.BasketCredit{BatchDenom: g.batchDenom(b), Amount: g.amountUpTo(h.T)})
 	if g.chance(0.25) {
 		if h2 := g.holding(); h2 != nil && obs.Addr(h2.Row.Address) == owner {
@@ -403,7 +424,19 @@ func (g *Gen) genUpdateDateCriteria() *eng.Tx {
 	if g.hostile() && g.chance(0.5) {
 		signer = obs.Addr(bk.Curator) // the curator is NOT allowed to change it
 	}
-	return tx(&baskettypes.MsgUpdateDateCriteria{Authority: signer, Denom: bk.BasketDenom, NewDateCriteria: g.dateCriteria()})
+	dc := g.dateCriteria()
+	// transitions between "no criterion" and criteria whose encoded value is all zero (the Unix epoch)
+	epoch := &baskettypes.DateCriteria{MinStartDate: &gogotypes.Timestamp{}}
+	switch {
+	case bk.DateCriteria == nil && g.chance(0.3):
+		dc = epoch
+	case bk.DateCriteria != nil && bk.DateCriteria.MinStartDate != nil && bk.DateCriteria.MinStartDate.Seconds == 0 && bk.DateCriteria.MinStartDate.Nanos == 0 && g.chance(0.6):
+		dc = nil
+		if g.chance(0.3) {
+			dc = &baskettypes.DateCriteria{}
+		}
+	}
+	return tx(&baskettypes.MsgUpdateDateCriteria{Authority: signer, Denom: bk.BasketDenom, NewDateCriteria: dc})
 }
 
 // ---------- marketplace ----------
@@ -911,6 +944,49 @@ func (g *Gen) genDefineResolver() *eng.Tx {
 		u = []string{"", "not a url", "://x"}[g.R.Intn(3)]
 	}
 	return tx(&data.MsgDefineResolver{Definer: g.actor(), ResolverUrl: u, Public: g.chance(0.3)})
+}
+
+// genResolverCombo: a client defines a resolver and registers data to it in ONE transaction (the new
+// id is predictable: auto-increment). Half of the time a later message of the transaction fails, so the
+// whole transaction is reverted and the id is handed out again — scripted follow-up: another account
+// defines a resolver (gets that id), the reverted definer tries to register to it (must be refused:
+// it never became the manager), the real manager registers (must be accepted).
+func (g *Gen) genResolverCombo() *eng.Tx {
+	if len(g.V.ResolverList) > 60 {
+		return nil
+	}
+	var next uint64 = 1
+	for _, r := range g.V.ResolverList {
+		if r.Id >= next {
+			next = r.Id + 1
+		}
+	}
+	g.refSeq++
+	definer := g.actor()
+	other := g.otherActor(definer)
+	url := fmt.Sprintf("https://combo-%d.example/a", g.refSeq)
+	url2 := fmt.Sprintf("https://combo-%d.example/b", g.refSeq)
+	public := g.chance(0.3)
+	msgs := []sdk.Msg{
+		&data.MsgDefineResolver{Definer: definer, ResolverUrl: url, Public: public},
+		&data.MsgRegisterResolver{Signer: definer, ResolverId: next, ContentHashes: []*data.ContentHash{g.contentHash()}},
+	}
+	if g.chance(0.5) {
+		// unknown resolver: this message fails and the transaction is reverted
+		msgs = append(msgs, &data.MsgRegisterResolver{Signer: definer, ResolverId: next + 100000, ContentHashes: []*data.ContentHash{g.contentHash()}})
+		h1, h2 := g.contentHash(), g.contentHash()
+		g.script = append(g.script,
+			func() *eng.Tx {
+				return &eng.Tx{Msgs: []sdk.Msg{&data.MsgDefineResolver{Definer: other, ResolverUrl: url2, Public: false}}, Tag: "resolver_combo/redefine"}
+			},
+			func() *eng.Tx {
+				return &eng.Tx{Msgs: []sdk.Msg{&data.MsgRegisterResolver{Signer: definer, ResolverId: next, ContentHashes: []*data.ContentHash{h1}}}, Tag: "resolver_combo/reverted-definer"}
+			},
+			func() *eng.Tx {
+				return &eng.Tx{Msgs: []sdk.Msg{&data.MsgRegisterResolver{Signer: other, ResolverId: next, ContentHashes: []*data.ContentHash{h2}}}, Tag: "resolver_combo/manager"}
+			})
+	}
+	return &eng.Tx{Msgs: msgs, Tag: "resolver_combo"}
 }
 
 func (g *Gen) genRegisterResolver() *eng.Tx {
